@@ -9,10 +9,10 @@ from props import _mps_trace as T
 from vlib import common
 from vlib.coqparse import parse
 
-OCC_TOL = 2e-4   # calibrated: correct code gives <= 1.4e-5 (occupations, correlations) over 1350 thorough cases (dt*|H| <= 0.3)
-EN_TOL = 1e-3    # times max(1, n); correct code gives <= 2.1e-4 absolute over 1350 thorough cases
-M2_TOL = 5e-3   # relative to max(1, <H^2>); correct code gives <= 1e-5 (MPO @ MPO compression at the default precision)
-FID_TOL = 2e-4   # correct code: <= 2.5e-6
+OCC_TOL = 1e-3   # occupations, correlations: correct code gives <= 6.8e-5 over 8100 thorough cases (6 seeds)
+EN_TOL = 2e-3    # times max(1, n); correct code gives <= 5e-4 absolute over 8100 thorough cases
+M2_TOL = 1e-2   # relative to max(1, ||H||^2); correct code gives <= 9.4e-4 over 8100 thorough cases
+FID_TOL = 5e-3   # phase sensitive (superposition targets): correct code gives <= 4.5e-4; a frame mix-up gives >= 9e-3
 
 
 def run_loop_shape(ctx):
@@ -141,6 +141,10 @@ def run_e2e(case):
             target = np.zeros(2 ** n, dtype=complex)
             for b, a in amps.items():
                 target[int("".join("1" if c == "r" else "0" for c in b), 2)] = a
+        if case.get("shuffle") is not None:
+            # all observables due at one time share one state object: the order they are listed in must not matter
+            import random as _random
+            _random.Random(case["shuffle"]).shuffle(obs)
         cfg = emu_mps.MPSConfig(observables=obs,
                                 log_level=logging.CRITICAL, optimize_qubit_ordering=case["reorder"])
         Uf = U_of_t_factory(case)
@@ -172,8 +176,11 @@ def run_e2e(case):
             e2 = float(np.real(np.vdot(ref[k], H @ (H @ ref[k]))))
             corr = np.array([[complex(x).real for x in row] for row in res.get_result("correlation_matrix", t)])
             e["corr_err"] = float(np.abs(corr - D.correlation(ref[k], n)).max())
-            e["m2_err"] = abs(float(res.get_result("energy_second_moment", t)) - e2) / max(1.0, abs(e2))
-            e["var_err"] = abs(float(res.get_result("energy_variance", t)) - (e2 - e1 * e1)) / max(1.0, abs(e2))
+            # <H^2> weights the high-energy tail, which is what TDVP truncation at the default precision loses first (2% of
+            # <H^2> observed at 1e-5, 7e-4 at 1e-8): the error is measured against ||H||^2, not against <H^2>
+            h2 = max(1.0, float(np.linalg.norm(H, 2)) ** 2)
+            e["m2_err"] = abs(float(res.get_result("energy_second_moment", t)) - e2) / h2
+            e["var_err"] = abs(float(res.get_result("energy_variance", t)) - (e2 - e1 * e1)) / h2
         if target is not None:
             tag = [x for x in res.get_result_tags() if x.startswith("fidelity")][0]
             e["fid_err"] = abs(float(res.get_result(tag, t)) - abs(np.vdot(target, ref[k])) ** 2)
@@ -189,6 +196,7 @@ def e2e_stage(ctx, n_cases):
         # "each observable it reports": beyond occupation/energy also correlations, energy moments and (for targets
         # given in register order, with and without a requested reordering) the fidelity
         case["more_obs"] = i % 2 == 0 or i % 3 == 0
+        case["shuffle"] = ctx.rng.randrange(10 ** 6)
         if i % 4 in (1, 2) and not prob["xy"]:
             bits = ["".join(ctx.rng.choice("rg") for _ in range(prob["n"])) for _ in range(2)]
             if len(set(bits[0])) == 1:  # not permutation symmetric
@@ -229,8 +237,8 @@ def _ser(case):
         out["slm"] = case["slm"]
     if case.get("perm") is not None:
         out["perm"] = case["perm"]
-    for k in ("more_obs", "fidelity"):
-        if case.get(k):
+    for k in ("more_obs", "fidelity", "shuffle"):
+        if case.get(k) is not None and case.get(k) is not False:
             out[k] = case[k]
     return out
 
@@ -244,8 +252,8 @@ def _deser(c):
         out["slm"] = c["slm"]
     if c.get("perm") is not None:
         out["perm"] = c["perm"]
-    for k in ("more_obs", "fidelity"):
-        if c.get(k):
+    for k in ("more_obs", "fidelity", "shuffle"):
+        if c.get(k) is not None:
             out[k] = c[k]
     return out
 
